@@ -23,6 +23,7 @@ import (
 	"github.com/cosmos/cosmos-sdk/x/authz"
 	banktypes "github.com/cosmos/cosmos-sdk/x/bank/types"
 	"github.com/medibloc/panacea-core/v2/app"
+	errorsmod "cosmossdk.io/errors"
 	dbm "github.com/cometbft/cometbft-db"
 	"github.com/btcsuite/btcutil/base58"
 	cmtsecp "github.com/cometbft/cometbft/crypto/secp256k1"
@@ -364,6 +365,22 @@ func (x *Exec) Run(lines []string) {
 			for _, m := range x.Mons {
 				m.AfterBlock(x)
 			}
+		case "VB":
+			x.history = x.history[:len(x.history)-1]
+			pm, err := x.parseMsg(append([]string{"M"}, f[1:]...))
+			must(err)
+			v, sg := vbAnswer(pm.Msg)
+			x.Out.Cmd(l, v)
+			x.Out.Cmd("", sg)
+			x.Out.hist.Flush()
+			x.Stats["vb:"+f[1]]++
+			x.Stats["vbres:"+strings.Join(strings.Split(v, " ")[:2], " ")]++
+			if v == "V panic" {
+				x.Findings = append(x.Findings, finding{Clause: "C17-validate-panic", Detail: "ValidateBasic panicked", Cmd: l})
+			}
+			if sg == "S panic" {
+				x.Findings = append(x.Findings, finding{Clause: "C17-signers-panic", Detail: "GetSigners panicked after successful validation", Cmd: l})
+			}
 		case "EXPORTIMPORT":
 			r := x.C.ExportImport()
 			x.Out.Cmd(l, strings.Join(strings.Split(r, " ")[:2], " "))
@@ -383,6 +400,38 @@ func (x *Exec) Run(lines []string) {
 			panic("unknown history line: " + l)
 		}
 	}
+}
+
+// vbAnswer runs ValidateBasic (and, if it accepts, GetSigners) on the real message under recover
+func vbAnswer(m sdk.Msg) (v string, sg string) {
+	v, sg = "V panic", "S skipped"
+	func() {
+		defer func() { recover() }()
+		err := m.ValidateBasic()
+		if err == nil {
+			v = "V ok"
+			return
+		}
+		cs, code, _ := errorsmod.ABCIInfo(err, false)
+		if cs == "sdk" && code == 9 {
+			// an address that decodes but fails VerifyAddressFormat, returned unwrapped by the PNFT/DID validators:
+			// canonicalised to the class of unwrapped bech32 errors (the model has one class for "does not decode")
+			cs, code = "undefined", 1
+		}
+		v = fmt.Sprintf("V err %s %d", cs, code)
+	}()
+	if v == "V ok" {
+		sg = "S panic"
+		func() {
+			defer func() { recover() }()
+			var parts []string
+			for _, a := range m.GetSigners() {
+				parts = append(parts, tok(a))
+			}
+			sg = "S ok " + strings.Join(parts, ",")
+		}()
+	}
+	return
 }
 
 func (x *Exec) declKey58(s58 string) {
